@@ -102,7 +102,7 @@ def full_matrix(scn, fn):
     return D
 
 
-def run_scenario(scn, want_events=True, twin_fin=None):
+def _run_scenario(scn, want_events=True, twin_fin=None):
     """Returns (trace, None) or (None, skip_reason) or raises for harness errors. Exceptions of the
     code under test are returned as (None, ("exception", repr))."""
     np = _np()
@@ -561,7 +561,7 @@ def random_float_scenario(rng, kind="sup", metric="euclidean", n=None, nu=0, nq=
     return scn
 
 
-def extreme_unit_scenarios(rng, count, kind="sup", nq=2, nu=0):
+def extreme_unit_scenarios(rng, count, kind="sup", nq=2, nu=0, metrics=("euclidean", "manhattan", "chebyshev"), scales=(2.0 ** -73, 2.0 ** -330, 2.0 ** 60, 1e-22)):
     """Dissimilarities in very small / very large units: features scaled by an exact power of two (2**-73, 2**-330, 2**60), or shifted by
     a large common offset (2**25), under
     the positively homogeneous metrics, half of them through a pre-computed matrix (every second of those scaled once more).
@@ -569,9 +569,9 @@ def extreme_unit_scenarios(rng, count, kind="sup", nq=2, nu=0):
     np = _np()
     out = []
     for i in range(count):
-        scn = random_float_scenario(rng, kind=kind, metric=("euclidean", "manhattan", "chebyshev")[i % 3], n=rng.randrange(3, 11), nu=nu, nq=nq,
+        scn = random_float_scenario(rng, kind=kind, metric=metrics[i % len(metrics)], n=rng.randrange(3, 11), nu=nu, nq=nq,
                                     mode=("pre" if i % 2 else "metric"), classes=rng.choice([2, 3]), copies=False)
-        scale = (2.0 ** -73, 2.0 ** -330, 2.0 ** 60, 1e-22)[i % 4]
+        scale = scales[i % len(scales)]
         if i % 5 == 4:
             # a large common offset (epoch seconds, geo coordinates): differences far below single-precision resolution at that magnitude
             scn["Z"] = (np.array(scn["Z"]) + 2.0 ** 25).tolist()
@@ -764,3 +764,14 @@ def learn_traces(rng, count, metrics=("euclidean", "log_squared_euclidean", "man
         tr["_extra"] = {}
         out.append((scn, tr))
     return out
+
+
+def run_scenario(scn, want_events=True, twin_fin=None):
+    """_run_scenario under a time limit: a call into the code under test that does not come back (a cycle followed for ever, ...)
+    is reported as an exception of kind CallTimeout - a verdict, not a hang of the check."""
+    try:
+        with H.time_limit(int(scn.get("time_limit", 90))):
+            return _run_scenario(scn, want_events=want_events, twin_fin=twin_fin)
+    except H.CallTimeout as ex:
+        CTX["on"] = False
+        return None, ("exception", "CallTimeout: %s" % ex)
